@@ -35,7 +35,9 @@ META = {
     'rule': ('cases = (unique first column or not, history of <= 20 ops create/assign/set/restore over <= 4 masters of a fresh '
              'versioned class with 3 int columns, incl. rejected values, unknown keywords, UNIQUE violations, empty set(); '
              'connection mode: caching / cache=False / two databases with masters made through connection= / every master '
-             'bound to a transaction of a file database, checked again after commit; masters are constructor-made and held; '
+             'bound to a transaction of a file database, checked again after commit / a cache with cullFrequency 0-3 and '
+             'cullFraction 2-3 so that several culls fall inside a history, with interleaved Master.get() of held masters; '
+             'masters are constructor-made and held; '
              'restore is followed by an update of the same master in most cases); '
              'distinct = distinct request line; non-trivial = at least two versions exist at the end'),
     'trusted': ['SQLite returns the rows of `SELECT … WHERE master_id = ?` in rowid order'],
@@ -65,6 +67,7 @@ def env():
     _env['mem'] = sqlo.mem_conn()                 # default: caching connection
     _env['nocache'] = sqlo.mem_conn(cache=False)  # cache=False: only weak references to held instances
     _env['other'] = sqlo.mem_conn()               # a second database, reached through connection= only
+    _env['cull'] = sqlo.mem_conn()                # its CacheSet is replaced per case by one with a small cullFrequency
     d = tempfile.mkdtemp(prefix='verif_c20_')
     atexit.register(shutil.rmtree, d, True)
     _env['file'] = sqlo.file_conn(os.path.join(d, 'tx.db'))   # transactions need a database two connections share
@@ -72,7 +75,7 @@ def env():
     return _env
 
 
-MODES = ('mem', 'nocache', 'twodb', 'tx')
+MODES = ('mem', 'nocache', 'twodb', 'tx', 'cull')
 
 
 def enc_val(v):
@@ -107,7 +110,7 @@ def line_of(case):
         return 'W %d %s %d | %s' % (NCOLS, ','.join(enc_val(v) for v in DEFAULTS), 1 if case['uniq0'] else 0,
                                     ' ; '.join('@%d %s' % (d, enc_op(op)) for d, op in case['ops']))
     return 'V %d %s %d | %s' % (NCOLS, ','.join(enc_val(v) for v in DEFAULTS), 1 if case['uniq0'] else 0,
-                                ' ; '.join(enc_op(op) for op in case['ops']))
+                                ' ; '.join(enc_op(op) for op in case['ops'] if op[0] != 'G'))
 
 
 def norm_op(op):
@@ -127,19 +130,26 @@ def norm_case(case):
         ops = [(d, norm_op(op)) for d, op in case['ops']]
     else:
         ops = [norm_op(op) for op in case['ops']]
-    return {'mode': mode, 'uniq0': bool(case.get('uniq0', False)), 'ops': ops, 'nomodel': bool(case.get('nomodel', False))}
+    return {'mode': mode, 'uniq0': bool(case.get('uniq0', False)), 'ops': ops, 'nomodel': bool(case.get('nomodel', False)),
+            'cull': tuple(case['cull']) if case.get('cull') else None}
 
 
 def colname(k):
     return 'c%d' % k if k < NCOLS else 'zz%d' % k
 
 
-def make_class(uniq0, mode):
+def make_class(uniq0, mode, cull=None):
     """returns (class, [connection of database 0, connection of database 1 or None], transaction or None)"""
     from sqlobject import SQLObject, IntCol
     from sqlobject.versioning import Versioning
     e = env()
-    base = {'mem': e['mem'], 'nocache': e['nocache'], 'twodb': e['mem'], 'tx': e['file']}[mode]
+    base = {'mem': e['mem'], 'nocache': e['nocache'], 'twodb': e['mem'], 'tx': e['file'], 'cull': e['cull']}[mode]
+    if mode == 'cull':
+        # culls (strong -> weak references) happen every few creations / get()s within the history; an instance
+        # the harness holds must stay THE instance of its row through any number of culls
+        from sqlobject.cache import CacheSet
+        freq, frac = cull or (1, 2)
+        base.cache = CacheSet(cache=True, cullFrequency=freq, cullFraction=frac)
     name = sqlo.uniq('C20M')
     attrs = {'_connection': base, 'versions': Versioning()}
     for k in range(NCOLS):
@@ -191,7 +201,7 @@ def run_case(case, oracle=None):
     """returns list of (out, state per database) per op; calls oracle(key, what, n) on failures.
     Every master is made by the constructor and stays referenced by the harness (`objs`)."""
     mode = mode_of(case)
-    cls, conns, trans = make_class(case['uniq0'], mode)
+    cls, conns, trans = make_class(case['uniq0'], mode, case.get('cull'))
     vcls = cls.versions.versionClass
     explicit = (mode in ('twodb', 'tx'))
     objs = {}        # (db, id) -> instance
@@ -216,6 +226,14 @@ def run_case(case, oracle=None):
             d, op = item if mode == 'twodb' else (0, item)
             out = 'ok'
             k = op[0]
+            if k == 'G':
+                # `Master.get(id)` of a master the harness holds: no model step; it must return the held instance
+                if (d, op[1]) in objs:
+                    got = cls.get(op[1], **kwconn(d))
+                    if got is not objs[(d, op[1])] and oracle is not None:
+                        oracle('C20:held-master-stale', 'Master.get(%d) built a second instance while the first one is still held'
+                               % op[1], n)
+                continue
             target = None
             restored = None
             try:
@@ -353,11 +371,15 @@ def gen_case(rng, clean, mode='mem'):
     for d in range(ndb):
         ops.append((d, ('C', ((0, first + d),))))
         nm[d] = 1
-    for _ in range(rng.randint(3, 12 if mode == 'tx' else 20)):
+    maxm = 7 if mode == 'cull' else 4
+    for _ in range(rng.randint(3, 12 if mode == 'tx' else (30 if mode == 'cull' else 20))):
         r = rng.random()
         d = rng.randint(0, ndb - 1)
         m = rng.randint(1, nm[d]) if rng.random() < 0.96 else nm[d] + 1
-        if r < 0.12 and nm[d] < 4:
+        if mode == 'cull' and rng.random() < 0.3:
+            ops.append((d, ('G', rng.randint(1, nm[d]))))      # get() of some master: counts towards the next cull
+            continue
+        if r < (0.2 if mode == 'cull' else 0.12) and nm[d] < maxm:
             kw = [(k, v) for k, v in gen_kw(rng, bad) if k != 0 and (k < NCOLS or not clean)]
             ops.append((d, ('C', tuple([(0, 41 + 10 * d + nm[d])] + kw))))
             nm[d] += 1
@@ -379,7 +401,10 @@ def gen_case(rng, clean, mode='mem'):
                 nv[d] += 1
     if mode != 'twodb':
         ops = [op for _, op in ops]
-    return {'mode': mode, 'uniq0': uniq0, 'ops': ops}
+    case = {'mode': mode, 'uniq0': uniq0, 'ops': ops}
+    if mode == 'cull':
+        case['cull'] = (rng.choice([0, 0, 1, 2, 3]), rng.choice([2, 2, 3]))
+    return case
 
 
 def corpus_cases():
@@ -416,7 +441,7 @@ def run(ctx):
     cases = [WITNESS, WITNESS_CONN, WITNESS_TX] + corpus_cases()
     n = ctx.budget(800, 7000)
     for i in range(n):
-        mode = ('mem', 'mem', 'nocache', 'twodb')[i % 4]
+        mode = ('mem', 'cull', 'nocache', 'twodb', 'mem', 'cull', 'nocache', 'twodb', 'cull')[i % 9]
         cases.append(gen_case(rng, clean=(i % 3 != 2), mode=mode))
     for i in range(ctx.budget(60, 400)):
         cases.append(gen_case(rng, clean=(i % 3 != 2), mode='tx'))
@@ -436,7 +461,8 @@ def run(ctx):
         stream = {'mem': 'master and version tables after every step = model',
                   'nocache': 'cache=False connection: tables after every step = model',
                   'twodb': 'two databases (connection=): tables of both after every step = model',
-                  'tx': 'masters bound to a transaction: tables seen by the transaction = model'}[mode]
+                  'tx': 'masters bound to a transaction: tables seen by the transaction = model',
+                  'cull': 'cache culled every few creations/gets: tables after every step = model'}[mode]
         if not case.get('nomodel'):
             ctx.compare(stream, case_json(case), outs[i] if outs is not None else None, impl)
         seen = set()
